@@ -174,7 +174,10 @@ func (c *c10) runReader(r *core.R, rng *rand.Rand, total, savedMask int, allDama
 	hasData := false
 	for i, f := range files {
 		sv := savedMask&(1<<uint(i)) != 0
-		in = append(in, par1rw.InFile{Name: f.Name, Data: f.Data, Saved: sv})
+		// other clients set bit 1 ("checked successfully") and may set bits
+		// gopar does not know; only bit 0 decides membership
+		extra := []uint64{0, 0, 2, 2, 4, 0x8000000000000002}[rng.Intn(6)]
+		in = append(in, par1rw.InFile{Name: f.Name, Data: f.Data, Saved: sv, ExtraStatus: extra})
 		if sv {
 			savedIdx = append(savedIdx, i)
 			if len(f.Data) > 0 {
